@@ -50,6 +50,10 @@ func mka(n int) [3]int { return [3]int{n, n + 10, vrt.V(9100, 30)} }
 
 type wide int64
 
+type flag bool
+
+const kq = 5
+
 func tick(n int) int { return vrt.V(9000+n%7, n) }`
 
 var strAlphabet = []string{"a", "z", "é", "€", "\U0001F600", "\xff", "\xc3", "\xe2\x82", "\xed\xa0\x80", "\x80", "\xf0\x9f", "\x00",
